@@ -55,13 +55,19 @@ def _committed_consumer(session, uuid):
     return (True, row[0]) if row else (False, None)
 
 
-def run_concurrent(ctx, world_fn, reqs, watch_provider=1, watch_consumer=1):
+def run_concurrent(ctx, world_fn, reqs, watch_provider=1, watch_consumer=1,
+                   fault_kinds=None):
     """returns (pre, results, final, sched, writes) where writes[i] is the
     list of observations made at the start of request i's transactions that
     later committed changes"""
     with world_fn(ctx) as w:
         pre = w.dump()
-        sched, un = inject.install_scheduler(w)
+        if fault_kinds:
+            sched, fh, un = inject.install_scheduler_and_faults(
+                w, fault_kinds)
+            sched.faults = fh
+        else:
+            sched, un = inject.install_scheduler(w)
         starts = {}
         writes = {i: [] for i in range(len(reqs))}
 
